@@ -9,6 +9,7 @@ from ..rat import rat, frac
 from .. import symtrace as st
 from ..symtrace import Sym
 from .. import gen_geom
+from .. import c12_session as S
 
 PROPERTY = "C12"
 LEAN_MODULE = "Proofs.C12"
@@ -30,7 +31,10 @@ THEOREMS = [_T + n for n in [
     # binary64: the computation operation by operation in a rounding arithmetic
     "isRnd_id", "isRnd_example", "relErr_id", "C12_float_id", "C12_float_symm", "C12_float_rejects",
     "C12_float_default_exact", "C12_float_abs_one_sided", "C12_float_monotone", "C12_float_exact_on_grid",
-    "C12_float_in_clip", "C12_float_band", "C12_float_in_clip_band"]]
+    "C12_float_in_clip", "C12_float_band", "C12_float_in_clip_band",
+    # follow-up 3: how the arguments of a call reach the parameters; histories in one process
+    "C12_params_nodup", "C12_bind_positional", "C12_bind_keyword_order", "C12_call_forms", "C12_call_forms_geometry",
+    "C12_session_last_write", "C12_session_answer", "C12_session_reads_transparent", "C12_session_fresh"]]
 LEVEL_TEXT = ("Lean theorems (symmetry, iff with intersection length >= threshold, set-theoretic / measure readings, "
               "monotonicity, rejection; on geometries: the predicate on [least, greatest] time / frequency coordinate; "
               "is_in_clip iff, its corollaries and its relation to the overlap length) hold for all rational inputs of the "
@@ -100,9 +104,12 @@ def _impl_intervals(inp):
     fn = _public("intervals_overlap")
     how = inp.get("as")
     conv = "int" if how == "int" else "np" if how == "np" else "frac" if how == "frac" else "float"
-    mk = list if how == "list" else tuple
-    i1 = mk(_num(x, conv) for x in inp["i1"])
-    i2 = mk(_num(x, conv) for x in inp["i2"])
+    box = inp.get("box") or ("list" if how == "list" else "tuple")
+    i1 = S._box([_num(x, conv) for x in inp["i1"]], box)
+    i2 = S._box([_num(x, conv) for x in inp["i2"]], box)
+    if inp.get("call") is not None:          # the optional arguments exactly as the call writes them
+        pos, kw = _call_args(inp["call"], lambda v: _num(v, conv))
+        return _twice(lambda: fn(i1, i2, *pos, **kw))
     a, r = _num(inp["abs"], conv), _num(inp["rel"], conv)
     if how == "pos":
         if r is None:
@@ -116,12 +123,21 @@ def _impl_intervals(inp):
     return _twice(lambda: fn(i1, i2, **kw))
 
 
+def _call_args(call, conv):
+    """{"pos": [v ...], "kw": [[name, v] ...]} -> (positional list, keyword dict in the order written)"""
+    return [conv(v) for v in call["pos"]], {k: conv(v) for k, v in call["kw"]}
+
+
 def _impl_geom(which):
     def impl(inp):
         fn = _public("have_temporal_overlap" if which == "temporal" else "have_frequency_overlap")
-        g1, g2 = gen_geom.to_data(inp["g1"]), gen_geom.to_data(inp["g2"])
+        g1 = S.build_geom(inp["g1"], inp.get("build1", "validate"))
+        g2 = S.build_geom(inp["g2"], inp.get("build2", "validate"))
         if inp.get("same_object"):
             g2 = g1
+        if inp.get("call") is not None:
+            pos, kw = _call_args(inp["call"], _f)
+            return _twice(lambda: fn(g1, g2, *pos, **kw))
         a, r = _f(inp["abs"]), _f(inp["rel"])
         if inp.get("as") == "pos":
             return _twice(lambda: fn(g1, g2, a, r))
@@ -148,8 +164,15 @@ def _recording():
 def _impl_in_clip(inp):
     from soundevent import data
     fn = _public("is_in_clip")
-    clip = data.Clip(recording=_recording(), start_time=_f(inp["start"]), end_time=_f(inp["end"]))
-    g = gen_geom.to_data(inp["g"])
+    if inp.get("clip_how") or inp.get("clip_num"):
+        clip = S.build_clip({"start": inp["start"], "end": inp["end"], "how": inp.get("clip_how", "new"),
+                             "num": inp.get("clip_num", "float")})
+    else:
+        clip = data.Clip(recording=_recording(), start_time=_f(inp["start"]), end_time=_f(inp["end"]))
+    g = S.build_geom(inp["g"], inp.get("build", "validate"))
+    if inp.get("call") is not None:
+        pos, kw = _call_args(inp["call"], _f)
+        return _twice(lambda: fn(g, clip, *pos, **kw))
     if inp.get("min") is None:
         return _twice(lambda: fn(g, clip))                      # the default of the code
     m = _num(inp["min"], "int" if inp.get("as") == "int" else "float")
@@ -231,6 +254,10 @@ OPS = {
                          determined=False, holds=_float_holds("is_in_clip_f64")),
 }
 
+OPS["session"] = Op("session", S.run_session, compare=S.compare_session,
+                    nontrivial=lambda inp, out: isinstance(out, dict) and any(
+                        isinstance(o, dict) and "val" in o for o in out.get("val", [])))
+
 THRESHOLDS = ([(None, None)] + [(a, None) for a in ["0", "1/4", "1/2", "1", "-1/4", "2"]]
               + [(None, r) for r in ["0", "1/4", "1/2", "1", "-1/4", "5/4"]]
               + [("1/4", "1/4"), ("0", "1/4"), ("1/4", "0"), ("0", "0")])
@@ -254,20 +281,42 @@ def _signature_table(ctx):
         ctx.pre_failed.append("default_minimum_overlap")
         ctx.fail("obligation", "default_minimum_overlap", detail=f"default of minimum_overlap not extractable: {e!r}",
                  extra={"op": "is_in_clip"})
-    fn = getattr(ops, "intervals_overlap", None)
-    for name in ("intervals_overlap", "have_temporal_overlap", "have_frequency_overlap"):
+    # the positional-signature table: after the two subjects, which optional parameters can be passed by position,
+    # in which order, under which names (`SE.Intervals.overlapParams` / `clipParams`, the tables `bindCall` binds
+    # against: C12_bind_positional, C12_bind_keyword_order, C12_call_forms).  Only what a caller can observe is
+    # pinned: the names of the two subjects and additional keyword-only parameters with defaults are free.
+    opname = {"intervals_overlap": "intervals_overlap", "have_temporal_overlap": "temporal",
+              "have_frequency_overlap": "frequency", "is_in_clip": "is_in_clip"}
+    for name, table in (("intervals_overlap", "overlapParams"), ("have_temporal_overlap", "overlapParams"),
+                        ("have_frequency_overlap", "overlapParams"), ("is_in_clip", "clipParams")):
         fn = getattr(ops, name, None)
+        obl = "signature_table_" + name
         try:
-            ps = inspect.signature(fn).parameters
-            ok = ps["min_absolute_overlap"].default is None and ps["min_relative_overlap"].default is None
-        except Exception:  # noqa: BLE001
-            ok = False
-        if not ok:
-            ctx.pre_failed.append("threshold_defaults_" + name)
-            ctx.fail("obligation", "threshold_defaults_" + name,
-                     detail="both thresholds must default to None (the model's `none none`)",
-                     extra={"op": {"intervals_overlap": "intervals_overlap", "have_temporal_overlap": "temporal",
-                                   "have_frequency_overlap": "frequency"}[name]})
+            ps = list(inspect.signature(fn).parameters.values())
+            P = inspect.Parameter
+            if any(p.kind in (P.VAR_POSITIONAL, P.VAR_KEYWORD) for p in ps):
+                raise TypeError("*args / **kwargs: the binding of a call is no longer readable from the signature")
+            positional = [p for p in ps if p.kind in (P.POSITIONAL_ONLY, P.POSITIONAL_OR_KEYWORD)]
+            kwonly = [p for p in ps if p.kind == P.KEYWORD_ONLY]
+            if len(positional) < 2 or any(p.default is not P.empty for p in positional[:2]):
+                raise TypeError("the two subjects must be the first two parameters, without defaults")
+            if any(p.default is P.empty for p in positional[2:] + kwonly):
+                raise TypeError("a further required parameter")
+            if any(p.kind == P.POSITIONAL_ONLY for p in positional[2:]):
+                raise TypeError("an optional parameter that cannot be passed by keyword")
+            names = [p.name for p in positional[2:]]
+            for p in kwonly:
+                ctx.tally(f"signature: extra keyword-only parameter {name}({p.name}=...)")
+            lst = "[" + ", ".join('"' + n + '"' for n in names) + "]"
+            ctx.obligation(obl, f"example : SE.Intervals.{table} = {lst} := by decide", {"op": opname[name]})
+            if table == "overlapParams" and not all(p.default is None for p in positional[2:]):
+                raise TypeError("both thresholds must default to None (the model's `none none`)")
+        except InfraError:
+            raise
+        except Exception as e:  # noqa: BLE001
+            ctx.pre_failed.append(obl)
+            ctx.fail("obligation", obl, detail=f"signature of {name} does not fit the model's parameter table: {e!r}",
+                     extra={"op": opname[name]})
 
 
 # ---------------------------------------------------------------- tie 1b
@@ -613,6 +662,338 @@ def _clip_cases(rng, reps):
                     yield c
 
 
+# ---------------------------------------------------------------- construction paths and call forms (HISTORIES.md 2)
+_A, _R = "min_absolute_overlap", "min_relative_overlap"
+
+
+def call_forms(a, r):
+    """every legitimate way of writing a call that passes the thresholds (a, r) (None = Python None):
+    C12_call_forms states that the model gives all of them the same answer"""
+    out = [{"pos": [a, r], "kw": []}, {"pos": [a], "kw": [[_R, r]]}, {"pos": [], "kw": [[_A, a], [_R, r]]},
+           {"pos": [], "kw": [[_R, r], [_A, a]]}]
+    if r is None:
+        out += [{"pos": [a], "kw": []}, {"pos": [], "kw": [[_A, a]]}]
+    if a is None:
+        out += [{"pos": [], "kw": [[_R, r]]}]
+    if a is None and r is None:
+        out += [{"pos": [], "kw": []}]
+    return out
+
+
+def _interval_form_cases():
+    """every call form x every container of the two intervals x numpy / float scalars, on every relation of two
+    intervals and every threshold setting"""
+    for k, rel in enumerate(_RELATIONS + [(2, 0, 0, 3), (1, 0, 1, 0)]):
+        i1, i2 = [rat(Fraction(rel[0])), rat(Fraction(rel[1]))], [rat(Fraction(rel[2])), rat(Fraction(rel[3]))]
+        for n, (a, r) in enumerate(THRESHOLDS):
+            for m, call in enumerate(call_forms(a, r)):
+                for box in S.BOXES:
+                    c = {"i1": i1, "i2": i2, "abs": a, "rel": r, "call": call, "box": box}
+                    if (k + n + m) % 3 == 0:
+                        c["as"] = "np"
+                    yield c
+
+
+def _geom_form_cases():
+    ref = geom_with_extent("BoundingBox", 0, "3/2", 0, "3/2")
+    for t in gen_geom.TYPES:
+        g = geom_with_extent(t, 1, 2, 1, 2)
+        for a, r in THRESHOLDS:
+            for call in call_forms(a, r):
+                yield {"g1": g, "g2": ref, "abs": a, "rel": r, "call": call}
+                yield {"g1": ref, "g2": g, "abs": a, "rel": r, "call": call}
+
+
+def _clip_form_cases():
+    for t in gen_geom.TYPES:
+        for s, e in [(0, 1), (0, "3/2"), ("5/4", "7/4"), ("3/2", 3), (2, 3), ("5/4", "5/4"), (1, 1)]:
+            g = geom_with_extent(t, s, e, 1, 2)
+            if g is None:
+                continue
+            for m in ["0", "1/4", "1/2", "-1/4"]:
+                for call in ({"pos": [m], "kw": []}, {"pos": [], "kw": [["minimum_overlap", m]]}):
+                    yield {"g": g, "start": "1", "end": "2", "min": m, "call": call}
+            yield {"g": g, "start": "1", "end": "2", "min": None, "call": {"pos": [], "kw": []}}
+
+
+def _construction_pair_cases(rng):
+    """every geometry type through every construction path of the data model (constructor, geometry_validate
+    dict / json / attributes, model_validate(_json), ints, numpy scalars, tuples, copies, dump round trip), as first
+    and as second argument, on disjoint / touching / partial / nested placements"""
+    rels = [(0, 1, 2, 3), (0, 1, 1, 2), (0, 2, 1, 3), (0, 3, 1, 2)]
+    for t in gen_geom.TYPES:
+        for how in S.GEOM_BUILDS:
+            for rel in rels:
+                g = geom_with_extent(t, rel[0], rel[1], rel[0], rel[1])
+                ref = geom_with_extent(rng.choice(["BoundingBox", "TimeInterval", "LineString"]), rel[2], rel[3], rel[2], rel[3])
+                if g is None:
+                    continue
+                for a, r in [(None, None), rng.choice(THRESHOLDS), rng.choice(THRESHOLDS)]:
+                    yield {"g1": g, "g2": ref, "abs": a, "rel": r, "build1": how, "build2": rng.choice(S.GEOM_BUILDS)}
+                    yield {"g1": ref, "g2": g, "abs": a, "rel": r, "build2": how}
+
+
+def _construction_clip_cases(rng):
+    """geometry construction paths x clip construction paths (constructor, model_validate, JSON round trip, fixed
+    uuid) x number types of the clip times"""
+    places = [(0, 1), (0, "3/2"), ("5/4", "7/4"), (2, 3), ("3/2", "3/2")]
+    for t in gen_geom.TYPES:
+        for how in S.GEOM_BUILDS:
+            for ch in ("new", "same_uuid", "validate", "json"):
+                s, e = rng.choice(places)
+                g = geom_with_extent(t, s, e, 1, 2)
+                if g is None:
+                    continue
+                yield {"g": g, "start": "1", "end": "2", "min": rng.choice([None, "0", "1/4", "1/2"]), "build": how,
+                       "clip_how": ch, "clip_num": rng.choice(S.CLIP_NUMS)}
+
+
+# ---------------------------------------------------------------- sizes (HISTORIES.md 4): many vertices / parts
+BIG_TYPES = ["LineString", "MultiPoint", "MultiLineString", "Polygon", "MultiPolygon"]
+BIG_SIZES = [17, 257, 1025]
+
+
+def big_geometry(ty, n, where, s=1, e=3, lo=1, hi=3):
+    """a geometry with >= n vertices (lines / polygons for the Multi* types) whose extent [s, e] x [lo, hi] is
+    attained *only* at four vertices placed at the position `where` (0 = first .. n = last) of the vertex list;
+    all other vertices lie in the inner box shrunk by 1/4.  All coordinates dyadic."""
+    s, e, lo, hi = (Fraction(x) for x in (s, e, lo, hi))
+    d = Fraction(1, 4)
+    bulk = []
+    for i in range(n):
+        t = s + d + (e - s - 2 * d) * Fraction(i, 2048)
+        f = (hi - d) if i % 2 else (lo + d)
+        bulk.append([t, f])
+    mt, mf = (s + e) / 2, (lo + hi) / 2
+    ext = [[s, mf], [mt, lo], [mt, hi], [e, mf]]
+    where = max(0, min(n, where))
+    if ty in ("LineString", "MultiPoint", "Polygon"):
+        pts = bulk[:where] + ext + bulk[where:]
+        if ty == "Polygon":
+            return {"type": ty, "coordinates": gen_geom._enc([pts + [pts[0]]])}
+        return {"type": ty, "coordinates": gen_geom._enc(pts)}
+    if ty == "MultiLineString":
+        lines = [[p, [p[0] + Fraction(1, 4096), p[1]]] for p in bulk]
+        special = [[[s, mf], [mt, lo]], [[mt, hi], [e, mf]]]
+        return {"type": ty, "coordinates": gen_geom._enc(lines[:where] + special + lines[where:])}
+    if ty == "MultiPolygon":
+        def tri(p, w=Fraction(1, 4096)):
+            return [[p, [p[0] + w, p[1]], [p[0], p[1] + w if p[1] < mf else p[1] - w], p]]
+        polys = [tri(p) for p in bulk]
+        special = [[[[s, mf], [s + d, mf], [s + d, lo], [s, mf]]], [[[e, mf], [e - d, mf], [e - d, hi], [e, mf]]]]
+        return {"type": ty, "coordinates": gen_geom._enc(polys[:where] + special + polys[where:])}
+    return None
+
+
+def _big_cases(sizes):
+    """the four extremes of a large geometry are each the only thing a reference geometry / a clip reaches"""
+    d8 = Fraction(1, 8)
+    for ty in BIG_TYPES:
+        for n in sizes:
+            for where in (1, n // 2, n):
+                g = big_geometry(ty, n, where)
+                refs_t = [geom_with_extent("TimeInterval", 0, 1 + d8, 0, 1), geom_with_extent("TimeInterval", 3 - d8, 4, 0, 1)]
+                refs_f = [geom_with_extent("BoundingBox", 0, 4, 0, 1 + d8), geom_with_extent("BoundingBox", 0, 4, 3 - d8, 4)]
+                for ref in refs_t:
+                    yield "temporal", {"g1": g, "g2": ref, "abs": None, "rel": None}
+                    yield "temporal", {"g1": ref, "g2": g, "abs": "1/8", "rel": None}
+                for ref in refs_f:
+                    yield "frequency", {"g1": ref, "g2": g, "abs": None, "rel": None}
+                    yield "frequency", {"g1": g, "g2": ref, "abs": None, "rel": "1"}
+                yield "is_in_clip", {"g": g, "start": "0", "end": rat(1 + d8), "min": None}
+                yield "is_in_clip", {"g": g, "start": rat(3 - d8), "end": "4", "min": "1/16"}
+
+
+# ---------------------------------------------------------------- histories (HISTORIES.md 1)
+_SLOT_EXT = {"A": (1, 2, 1, 2), "B": (7, 8, 5, 6), "C": ("3/2", 3, "3/2", 3), "D": (5, 6, 0, 1)}
+
+
+def _session_templates():
+    """seeded C12-7 and its whole class, enumerated: every geometry type x every way of changing an object
+    (GEOM_CHANGES in place, GEOM_DERIVES into a second object) x every first use (each predicate, compute_bounds,
+    the shapely conversion ...): use, move, ask again - in both directions (overlapping -> disjoint and back)"""
+    ref = geom_with_extent("BoundingBox", "3/2", "5/2", 1, 2)
+    first_uses = [[{"do": "temporal", "a": 0, "b": 1, "abs": None, "rel": None}],
+                  [{"do": "frequency", "a": 1, "b": 0, "abs": None, "rel": None}],
+                  [{"do": "in_clip", "a": 0, "clip": 0, "min": None}]] + [[{"do": "touch", "slot": 0, "what": w}] for w in S.TOUCHES]
+    k = 0
+    for t in gen_geom.TYPES:
+        for how in S.GEOM_CHANGES + ["derive:" + h for h in S.GEOM_DERIVES]:
+            for fu in first_uses:
+                for order in (("A", "B", "C"), ("B", "A", "D")):
+                    k += 1
+                    g = [geom_with_extent(t, *_SLOT_EXT[x]) for x in order]
+                    if any(x is None for x in g):
+                        continue
+                    build = S.GEOM_BUILDS[k % len(S.GEOM_BUILDS)]
+                    steps = [{"do": "set", "slot": 0, "g": g[0], "how": "new", "build": build},
+                             {"do": "set", "slot": 1, "g": ref, "how": "new"},
+                             {"do": "clip", "slot": 0, "start": "0", "end": "5", "how": "new"}] + [dict(x) for x in fu]
+                    slot = 0
+                    for j in (1, 2):
+                        if how.startswith("derive:"):
+                            steps.append({"do": "derive", "slot": slot + 2, "src": slot, "g": g[j], "how": how[7:]})
+                            old, slot = slot, slot + 2
+                        else:
+                            steps.append({"do": "set", "slot": 0, "g": g[j], "how": how})
+                            old = None
+                        form = S.FORMS[(k + j) % len(S.FORMS)]
+                        qs = [{"do": "temporal", "a": slot, "b": 1, "abs": None, "rel": None, "form": form},
+                              {"do": "temporal", "a": 1, "b": slot, "abs": None, "rel": "1/2", "form": form},
+                              {"do": "frequency", "a": slot, "b": 1, "abs": None, "rel": None},
+                              {"do": "frequency", "a": 1, "b": slot, "abs": "1/4", "rel": None, "form": form},
+                              {"do": "in_clip", "a": slot, "clip": 0, "min": None},
+                              {"do": "in_clip", "a": slot, "clip": 0, "min": "1/2", "form": form}]
+                        if old is not None:      # the object the copy was derived from still answers for its own content
+                            qs += [{"do": "temporal", "a": old, "b": 1, "abs": None, "rel": None},
+                                   {"do": "in_clip", "a": old, "clip": 0, "min": None},
+                                   {"do": "temporal", "a": old, "b": slot, "abs": None, "rel": None}]
+                        steps += qs
+                    yield {"steps": steps}
+
+
+def _clip_session_templates():
+    """the clip side: a clip that was used is changed (assignment, model_copy(update=...) - which keeps its uuid -,
+    copy + assignment) or replaced by another clip with the same uuid, then used again"""
+    for t in ("TimeStamp", "TimeInterval", "BoundingBox", "LineString", "MultiPolygon"):
+        for how in S.CLIP_HOWS:
+            for num in S.CLIP_NUMS:
+                g1, g2 = geom_with_extent(t, 6, 7, 1, 2), geom_with_extent(t, 1, 2, 1, 2)
+                if g1 is None or g2 is None:
+                    continue
+                steps = [{"do": "set", "slot": 0, "g": g1, "how": "new"}, {"do": "set", "slot": 1, "g": g2, "how": "new"},
+                         {"do": "clip", "slot": 0, "start": "0", "end": "5", "how": "same_uuid", "num": num}]
+                for cs, ce in (("0", "5"), ("5", "10"), ("13/2", "10"), ("0", "3/2")):
+                    steps.append({"do": "clip", "slot": 0, "start": cs, "end": ce, "how": how, "num": num, "uuid": 0})
+                    for m, form in ((None, "kw"), ("1/2", "pos"), ("1", "kw")):
+                        steps.append({"do": "in_clip", "a": 0, "clip": 0, "min": m, "form": form})
+                        steps.append({"do": "in_clip", "a": 1, "clip": 0, "min": m, "form": form})
+                yield {"steps": steps}
+
+
+def _option_session_templates():
+    """the same objects / the same intervals asked with one option after another, then plainly again: a cache
+    keyed by the subjects alone, or an option remembered in module state, shows in the later answers"""
+    for t1 in gen_geom.TYPES:
+        g1, g2 = geom_with_extent(t1, 0, 2, 0, 2), geom_with_extent("BoundingBox", 1, 3, 1, 3)
+        steps = [{"do": "set", "slot": 0, "g": g1, "how": "new"}, {"do": "set", "slot": 1, "g": g2, "how": "new"},
+                 {"do": "clip", "slot": 0, "start": "1", "end": "3", "how": "new"}]
+        for a, r in THRESHOLDS + [(None, None)] + THRESHOLDS[::-1]:
+            steps.append({"do": "temporal", "a": 0, "b": 1, "abs": a, "rel": r})
+            steps.append({"do": "frequency", "a": 0, "b": 1, "abs": a, "rel": r})
+        for m in [None, "1", "0", None, "-1", None, "1/2", "2", None]:
+            steps.append({"do": "in_clip", "a": 0, "clip": 0, "min": m})
+        yield {"steps": steps}
+    for box in S.BOXES:
+        steps = []
+        for a, r in THRESHOLDS + [(None, None)] + THRESHOLDS[::-1] + [(None, None)]:
+            steps.append({"do": "intervals", "i1": ["0", "2"], "i2": ["1", "3"], "abs": a, "rel": r, "box": box})
+            steps.append({"do": "intervals", "i1": ["1", "3"], "i2": ["0", "2"], "abs": a, "rel": r, "box": box,
+                          "form": "pos"})
+        yield {"steps": steps}
+
+
+def _random_sessions(rng, n):
+    """random histories on three geometry slots and two clips"""
+    grid = [Fraction(i, 4) for i in range(0, 33)]
+
+    def rgeom(t):
+        for _ in range(20):
+            a, b = sorted(rng.sample(grid, 2))
+            lo, hi = sorted(rng.sample(grid, 2))
+            if rng.random() < 0.15:
+                b = a
+            g = geom_with_extent(t, a, b, lo, hi)
+            if g is not None:
+                return g
+        return geom_with_extent(t, 1, 2, 1, 2)
+
+    for _ in range(n):
+        types = {}
+        steps = []
+        for k in range(3):
+            types[k] = rng.choice(gen_geom.TYPES)
+            steps.append({"do": "set", "slot": k, "g": rgeom(types[k]), "how": "new", "build": rng.choice(S.GEOM_BUILDS)})
+        for k in range(2):
+            a, b = sorted(rng.sample(grid, 2))
+            steps.append({"do": "clip", "slot": k, "start": rat(a), "end": rat(b), "how": rng.choice(["new", "same_uuid"]),
+                          "num": rng.choice(S.CLIP_NUMS)})
+        for _ in range(rng.randint(8, 18)):
+            u = rng.random()
+            a, r = rng.choice(THRESHOLDS)
+            if u < 0.22:
+                k = rng.randrange(3)
+                steps.append({"do": "set", "slot": k, "g": rgeom(types[k]), "how": rng.choice(S.GEOM_CHANGES)})
+            elif u < 0.30:
+                src, dst = rng.sample(range(3), 2)
+                types[dst] = types[src]
+                steps.append({"do": "derive", "slot": dst, "src": src, "g": rgeom(types[src]), "how": rng.choice(S.GEOM_DERIVES)})
+            elif u < 0.34:
+                k = rng.randrange(3)
+                types[k] = rng.choice(gen_geom.TYPES)
+                steps.append({"do": "set", "slot": k, "g": rgeom(types[k]), "how": "new", "build": rng.choice(S.GEOM_BUILDS)})
+            elif u < 0.42:
+                x, y = sorted(rng.sample(grid, 2))
+                steps.append({"do": "clip", "slot": rng.randrange(2), "start": rat(x), "end": rat(y),
+                              "how": rng.choice(S.CLIP_HOWS), "num": rng.choice(S.CLIP_NUMS), "uuid": rng.choice([None, 0, 1])})
+            elif u < 0.50:
+                steps.append({"do": "touch", "slot": rng.randrange(3), "what": rng.choice(S.TOUCHES)})
+            elif u < 0.56:
+                p = sorted(rng.sample(grid, 2)) + sorted(rng.sample(grid, 2))
+                steps.append({"do": "intervals", "i1": [rat(p[0]), rat(p[1])], "i2": [rat(p[2]), rat(p[3])], "abs": a, "rel": r,
+                              "box": rng.choice(S.BOXES), "form": rng.choice(S.FORMS)})
+            elif u < 0.72:
+                steps.append({"do": "temporal", "a": rng.randrange(3), "b": rng.randrange(3), "abs": a, "rel": r,
+                              "form": rng.choice(S.FORMS)})
+            elif u < 0.86:
+                steps.append({"do": "frequency", "a": rng.randrange(3), "b": rng.randrange(3), "abs": a, "rel": r,
+                              "form": rng.choice(S.FORMS)})
+            else:
+                steps.append({"do": "in_clip", "a": rng.randrange(3), "clip": rng.randrange(2),
+                              "min": rng.choice([None, "0", "1/4", "1", "-1/4"]), "form": rng.choice(["kw", "pos"])})
+        yield {"steps": steps}
+
+
+def _stage_histories(ctx):
+    hs = list(_session_templates()) + list(_clip_session_templates()) + list(_option_session_templates())
+    ctx.exhaustive["histories"] = (f"9 types x {len(S.GEOM_CHANGES)} in-place changes + {len(S.GEOM_DERIVES)} derivations x "
+                                   f"{3 + len(S.TOUCHES)} first uses x 2 directions; 5 types x {len(S.CLIP_HOWS)} clip changes x "
+                                   f"{len(S.CLIP_NUMS)} number types; option sequences on 9 types and 4 interval containers")
+    hs += list(_random_sessions(ctx.rng, ctx.budget(150, 2500)))
+    for h in hs:
+        for st_ in h["steps"]:
+            if st_["do"] in ("set", "derive", "clip"):
+                ctx.tally(f"history:{st_['do']}:{st_.get('how', 'new')}")
+            elif st_["do"] == "touch":
+                ctx.tally("history:touch:" + st_.get("what", ""))
+            else:
+                ctx.tally("history:call:" + st_["do"])
+    ctx.run_cases(OPS["session"], hs)
+
+
+def _stage_construction(ctx):
+    ctx.run_cases(OPS["intervals_overlap"], _interval_form_cases())
+    forms = list(_geom_form_cases())
+    ctx.run_cases(OPS["temporal"], forms)
+    ctx.run_cases(OPS["frequency"], forms)
+    ctx.run_cases(OPS["is_in_clip"], _clip_form_cases())
+    ctx.exhaustive["call forms"] = ("every way of writing the optional arguments (positional, mixed, keywords in both orders, "
+                                    "explicit None, omitted) x 17 threshold settings x 14 interval relations x 4 containers; "
+                                    "9 types x both argument positions; is_in_clip positional / keyword / default")
+    pairs = list(_construction_pair_cases(ctx.rng))
+    ctx.run_cases(OPS["temporal"], pairs)
+    ctx.run_cases(OPS["frequency"], pairs)
+    ctx.run_cases(OPS["is_in_clip"], _construction_clip_cases(ctx.rng))
+    ctx.exhaustive["construction paths"] = (f"9 types x {len(S.GEOM_BUILDS)} construction paths x 4 placements x both argument "
+                                            "positions; x 4 clip construction paths x 3 number types")
+    by_op = {}
+    for opn, c in _big_cases(BIG_SIZES if ctx.thorough() else BIG_SIZES[:2] + [1025][:1]):
+        by_op.setdefault(opn, []).append(c)
+    for opn, cs in by_op.items():
+        ctx.run_cases(OPS[opn], cs)
+    ctx.exhaustive["sizes"] = "5 multi-vertex types x {17, 257, 1025} vertices / parts x extreme at the start / middle / end"
+
+
 # ---------------------------------------------------------------- arbitrary binary64 inputs
 def _ulp_shift(x, k):
     for _ in range(abs(k)):
@@ -728,6 +1109,8 @@ def run(ctx):
     ctx.stage("symbolic-ties", _symbolic_ties, ctx)
     ctx.stage("discharge", ctx.discharge, ["SoundeventModel.Intervals", "SoundeventModel.Tactics"])
     ctx.stage("correspondence", _correspondence, ctx)
+    ctx.stage("construction-paths", _stage_construction, ctx)
+    ctx.stage("histories", _stage_histories, ctx)
     ctx.stage("rnd64-contract", _rnd64_contract, ctx)
     ctx.stage("binary64", _floats, ctx)
 
